@@ -586,6 +586,7 @@ type LemmaSpec struct {
 type ExternSpec struct {
 	Name     string // full name e.g. strings.Contains or (*bufio.Reader).Peek
 	Pure     bool
+	Heap     bool // pure, but a function of the arguments AND the heap content
 	Requires []*Clause
 	Ensures  []*Clause
 	Modifies []*Clause
@@ -825,6 +826,11 @@ func parseContractFile(path, pkg string) (*ContractFile, error) {
 			for _, x := range f[1:] {
 				if x == "pure" {
 					ext.Pure = true
+				}
+				if x == "heap" {
+					// `extern X pure heap`: no side effects, but the result depends on the heap (a getter of mutable
+					// objects): two calls agree only when nothing was written in between
+					ext.Heap = true
 				}
 			}
 			cf.Externs = append(cf.Externs, ext)
